@@ -25,6 +25,8 @@ REQUIRED_THEOREMS = ['CfVerif.C14.' + t for t in (
     'i2c_single_corruption_detected_partial', 'i2c_version_corruption_iff', 'i2c_single_corruption_detected_counterexample',
     'ow_image_total', 'ow_roundtrip', 'ow_roundtrip_lookup', 'ow_update_is_layout', 'ow_valid_iff_crc', 'ow_completes_iff', 'ow_roundtrip_live_counterexample',
     'ow_valid_iff_crc_live_counterexample',
+    'lh_write_completes_with_layout', 'lh_repeated_upload', 'lh_write_geos_is_layout', 'lh_write_calibs_is_layout', 'lh_read_all_spec',
+    'lh_write_then_read_all', 'lh_prepare_pads',
     'lh_geo_container_roundtrip', 'lh_calib_container_roundtrip', 'lh_geo_roundtrip', 'lh_calib_roundtrip', 'lh_config_roundtrip',
     'deck_info_parse', 'deck_flags', 'deck_info_version_rejected',
     'loco_parse', 'loco2_id_list', 'loco2_active_id_list', 'loco2_anchor_data', 'poly4d_layout', 'ledtiming_image', 'ledtiming_layout',
@@ -706,6 +708,64 @@ def extract_state(g):
     g.strings('deckQueryInit', plain_assigns(X.find(dm, 'query_decks')))
 
 
+def stmts(fn):
+    """source text of the simple statements (assignments, augmented assignments, expression statements) of a function, in order,
+    descending into if/else bodies"""
+    out = []
+
+    def go(body):
+        for n in body:
+            if isinstance(n, (ast.Assign, ast.AugAssign)):
+                out.append(ast.unparse(n))
+            elif isinstance(n, ast.Expr) and not isinstance(n.value, ast.Constant):
+                out.append(ast.unparse(n))
+            elif isinstance(n, ast.Raise):
+                out.append('raise')
+            elif isinstance(n, ast.If):
+                out.append('if ' + ast.unparse(n.test) + ':')
+                go(n.body)
+                if n.orelse:
+                    out.append('else:')
+                    go(n.orelse)
+    go(fn.body)
+    return out
+
+
+def extract_helper(g):
+    """LighthouseMemHelper._ObjectWriter / _ObjectReader, the busy guards of LighthouseMemory, LighthouseConfigWriter's copies"""
+    tree = X.parse('cflib/crazyflie/mem/lighthouse_memory.py')
+    helper = X.find(tree, 'LighthouseMemHelper')
+    wr = X.find(helper, '_ObjectWriter')
+    w = X.find(wr, 'write')
+    a = assigns(w)
+    X.expect('self._objects_to_write' in a, '_ObjectWriter.write: assignment to self._objects_to_write not found')
+    g.string('lhWriterQueueSrc', ast.unparse(a['self._objects_to_write']))
+    g.strings('lhWriterWrite', stmts(w))
+    g.strings('lhWriterNext', stmts(X.find(wr, '_write_next_object')))
+    g.strings('lhWriterDataWritten', stmts(X.find(wr, '_data_written')))
+    g.strings('lhWriterWriteFailed', stmts(X.find(wr, '_write_failed')))
+    rd = X.find(helper, '_ObjectReader')
+    rc = class_consts_eval(rd)
+    g.nat('lhReaderNrOfChannels', need(rc, ['NR_OF_CHANNELS'], '_ObjectReader')[0])
+    g.strings('lhReaderReadAll', stmts(X.find(rd, 'read_all')))
+    g.strings('lhReaderDataUpdated', stmts(X.find(rd, '_data_updated')))
+    g.strings('lhReaderUpdateFailed', stmts(X.find(rd, '_update_failed')))
+    g.strings('lhReaderGetObject', stmts(X.find(rd, '_get_object')))
+    g.strings('lhHelperInit', [x for x in stmts(X.find(helper, '__init__')) if 'Object' in x])
+    g.strings('lhHelperCalls', [ast.unparse(n.value) for fn in ('read_all_geos', 'write_geos', 'read_all_calibs', 'write_calibs')
+                                for n in X.find(helper, fn).body if isinstance(n, ast.Expr) and isinstance(n.value, ast.Call)])
+    mem = X.find(tree, 'LighthouseMemory')
+    for fn, nm in (('write_geo_data', 'lhMemWriteGeo'), ('write_calib_data', 'lhMemWriteCalib'), ('read_geo_data', 'lhMemReadGeo'),
+                   ('read_calib_data', 'lhMemReadCalib'), ('new_data', 'lhMemNewData'), ('new_data_failed', 'lhMemNewDataFailed'),
+                   ('write_done', 'lhMemWriteDone'), ('write_failed', 'lhMemWriteFailed')):
+        g.strings(nm, [x for x in stmts(X.find(mem, fn)) if not x.startswith('logger.')])
+    cw = X.find(X.parse('cflib/localization/lighthouse_config_manager.py'), 'LighthouseConfigWriter')
+    for fn, nm in (('_prepare_geos', 'lhCfgPrepareGeos'), ('_prepare_calibs', 'lhCfgPrepareCalibs')):
+        g.strings(nm, stmts(X.find(cw, fn)))
+    nx = X.find(cw, '_next')
+    g.strings('lhCfgNextCalls', [ast.unparse(c) for c in sorted((m for m in ast.walk(nx) if isinstance(m, ast.Call) and 'self._helper' in ast.unparse(m.func)), key=lambda m: m.lineno)])
+
+
 def extract(ctx):
     g = X.GenFile(PID, ['cflib/crazyflie/mem/i2c_element.py', 'cflib/crazyflie/mem/ow_element.py', 'cflib/crazyflie/mem/lighthouse_memory.py',
                           'cflib/crazyflie/mem/deck_memory.py', 'cflib/crazyflie/mem/loco_memory.py', 'cflib/crazyflie/mem/loco_memory_2.py',
@@ -719,6 +779,7 @@ def extract(ctx):
     extract_traj_led(g)
     extract_yaml(g)
     extract_state(g)
+    extract_helper(g)
     return {'C14.lean': g.render()}
 
 
@@ -742,6 +803,8 @@ class FakeMemHandler:
         self.writes = []
         self.reads = []
         self.next_mems = []       # memory contents that replace the current one after each served read
+        self.write_acks = []      # per served write: True = stored + write_done, False = refused (write_failed); default accepted
+        self.read_fails = set()   # addresses whose read is refused by the device (new_data_failed)
 
     def read(self, memory, addr, length):
         self.q.append(('r', memory, addr, length))
@@ -763,12 +826,18 @@ class FakeMemHandler:
             op = self.q.pop(0)
             if op[0] == 'r':
                 _, m, a, ln = op
+                if a in self.read_fails:
+                    getattr(m, new_data + '_failed')(m, a, bytearray())
+                    continue
                 data = bytearray(self.mem[a:a + ln])
                 if self.next_mems:
                     self.mem = bytearray(self.next_mems.pop(0))
                 getattr(m, new_data)(m, a, data)
             else:
                 _, m, a, d = op
+                if self.write_acks and not self.write_acks.pop(0):
+                    m.write_failed(m, a)
+                    continue
                 if len(self.mem) < a:
                     self.mem += bytes(a - len(self.mem))
                 self.mem[a:a + len(d)] = d
@@ -1936,6 +2005,158 @@ def gen_hist(ctx, cases):
                 ctx.count('hist:%s:change:%s' % (kind, kk))
 
 
+# ---- histories on the helper objects (LighthouseMemHelper, LighthouseConfigWriter) -------------------------------------
+def show_obj_dict(d):
+    out = []
+    for bs, o in d.items():
+        out.append('%d/%s' % (bs, show_lh(o)[4:] if show_lh(o).startswith('geo ') else show_lh(o)[6:]))
+    return ','.join(out) or '-'
+
+
+def mem_sig(mem):
+    return '%d:%d' % (len(mem), crc32(bytes(mem)))
+
+
+def real_lh_hist(size, defs, steps):
+    """defs: {name: [(bs, f, v)] | [(bs, f, uid, v)]} - each becomes ONE dict object that the steps hand to the helper again and again"""
+    _quiet()
+    from cflib.crazyflie.mem.lighthouse_memory import LighthouseMemHelper, LighthouseMemory
+
+    def new_helper(sz):
+        h = FakeMemHandler(bytes(sz))
+        lh = LighthouseMemory(3, 0x14, 0x2000, h)
+        return h, lh, LighthouseMemHelper(_FakeCf([lh]))
+    env = {}
+    for name, ents in defs.items():
+        env[name] = {e[0]: (mk_geo(e[1], e[2]) if name.startswith('G') else mk_calib(e[1], e[2], e[3])) for e in ents}
+    h, lh, helper = new_helper(size)
+    out = []
+    for st in steps:
+        w = st.split(':')
+        try:
+            if w[0] in ('wg', 'wc'):
+                d = env[w[1]]
+                h.write_acks = [] if w[2] == '-' else [c == '1' for c in w[2]]
+                done = []
+                (helper.write_geos if w[0] == 'wg' else helper.write_calibs)(d, done.append)
+                h.run()
+                h.write_acks = []
+                out.append('W=%s|d=%s|m=%s' % ('?' if not done else ('1' if done[0] else '0'), show_obj_dict(d), mem_sig(h.mem)))
+            elif w[0] in ('rg', 'rc'):
+                fails = [] if w[1] == '-' else [int(x) for x in w[1].split('.')]
+                base = 0 if w[0] == 'rg' else 0x1000
+                h.read_fails = {base + 0x100 * b for b in fails}
+                res = []
+                (helper.read_all_geos if w[0] == 'rg' else helper.read_all_calibs)(res.append)
+                h.run()
+                h.read_fails = set()
+                out.append('R=%s' % ('?' if not res else show_obj_dict(res[0])))
+            elif w[0] == 'h':
+                h, lh, helper = new_helper(int(w[1]))
+                out.append('H')
+        except Exception as e:
+            out.append('E:' + exc_enum(e))
+            break
+    return 'ok ' + ';'.join(out)
+
+
+class _FakeLoc:
+    LH_PERSIST_DATA = 2
+
+    def __init__(self):
+        from cflib.utils.callbacks import Caller
+        self.receivedLocationPacket = Caller()
+        self.persisted = []
+        self.pending = 0
+
+    def send_lh_persist_data_packet(self, geo_list, calib_list):
+        self.persisted.append((list(geo_list), list(calib_list)))
+        self.pending += 1          # the reply arrives later, on the incoming-packet thread
+
+    def deliver(self):
+        class P:
+            type = _FakeLoc.LH_PERSIST_DATA
+        while self.pending:
+            self.pending -= 1
+            self.receivedLocationPacket.call(P())
+
+
+def real_lh_cfgw(size, geos, calibs):
+    _quiet()
+    from cflib.crazyflie.mem.lighthouse_memory import LighthouseMemory
+    from cflib.localization.lighthouse_config_manager import LighthouseConfigWriter
+    h = FakeMemHandler(bytes(size))
+    lh = LighthouseMemory(3, 0x14, 0x2000, h)
+    cf = _FakeCf([lh])
+    cf.loc = _FakeLoc()
+    gd = None if geos is None else {bs: mk_geo(f, v) for bs, f, v in geos}
+    cd = None if calibs is None else {bs: mk_calib(f, uid, v) for bs, f, uid, v in calibs}
+    done = []
+    try:
+        w = LighthouseConfigWriter(cf)
+        w.write_and_store_config(done.append, geos=gd, calibs=cd)
+        for _ in range(10):
+            if not h.q and not cf.loc.pending:
+                break
+            h.run()
+            cf.loc.deliver()
+    except Exception as e:
+        return 'err ' + exc_enum(e)
+    sd = lambda d: 'none' if d is None else show_obj_dict(d)
+    pl = cf.loc.persisted[0] if cf.loc.persisted else ([], [])
+    return 'ok S=%s|g=%s|c=%s|m=%s|p=%d.%d' % ('?' if not done else ('1' if done[0] else '0'), sd(gd), sd(cd), mem_sig(h.mem), len(pl[0]), len(pl[1]))
+
+
+def gen_helper(ctx, cases):
+    rng = ctx.rng
+    thorough = ctx.tier == 'thorough'
+    dots = lambda l: '.'.join(str(x) for x in l)
+
+    def fl(n):
+        return [rnd_f32(rng) for _ in range(n)]
+
+    def rnd_geos(k=None):
+        return [(bs, fl(12), rng.randrange(2)) for bs in rng.sample(range(16), rng.choice([0, 1, 2, 5, 16]) if k is None else k)]
+
+    def rnd_calibs(k=None, bad=False):
+        return [(bs, fl(14), (1 << 32) if bad and i == 1 else rng.getrandbits(32), rng.randrange(2))
+                for i, bs in enumerate(rng.sample(range(16), rng.choice([0, 1, 2, 5, 16]) if k is None else k))]
+    enc_g = lambda l: ','.join('%d/%s/%d' % (b, dots(f), v) for b, f, v in l) or '-'
+    enc_c = lambda l: ','.join('%d/%s/%d/%d' % (b, dots(f), u, v) for b, f, u, v in l) or '-'
+    for t in range(120 if thorough else 30):
+        defs = {'G0': rnd_geos(), 'G1': rnd_geos(), 'C0': rnd_calibs(bad=rng.random() < 0.08)}
+        steps = []
+        for _ in range(rng.choice([2, 3, 4, 6])):
+            k = rng.random()
+            if k < 0.35:
+                name = rng.choice(['G0', 'G0', 'G1'])
+                n = len(defs[name])
+                acks = '-' if rng.random() < 0.7 or n == 0 else ''.join(rng.choice('1110') for _ in range(n))
+                steps.append('wg:%s:%s' % (name, acks))
+            elif k < 0.5:
+                n = len(defs['C0'])
+                steps.append('wc:C0:%s' % ('-' if rng.random() < 0.7 or n == 0 else ''.join(rng.choice('1110') for _ in range(n))))
+            elif k < 0.72:
+                steps.append('rg:%s' % ('-' if rng.random() < 0.6 else dots(sorted(rng.sample(range(16), rng.choice([1, 3, 15]))))))
+            elif k < 0.85:
+                steps.append('rc:%s' % ('-' if rng.random() < 0.6 else dots(sorted(rng.sample(range(16), rng.choice([1, 3]))))))
+            else:
+                steps.append('h:%d' % 0x2000)               # the next Crazyflie: another helper, another memory, the SAME dict objects
+        if t % 3 == 0:                                      # the canonical uses: upload twice / to two Crazyflies / write then read back
+            steps = ['wg:G0:-', 'wg:G0:-', 'rg:-', 'h:8192', 'wg:G0:-', 'wc:C0:-', 'rg:-', 'rc:-']
+        line = 'lh_hist %d %s %s' % (0x2000, '|'.join(['G0=' + enc_g(defs['G0']), 'G1=' + enc_g(defs['G1']), 'C0=' + enc_c(defs['C0'])]), ';'.join(steps))
+        cases.append(('lh_hist', line, (lambda d=defs, s=steps: real_lh_hist(0x2000, d, s)), canon_f32_fields,
+                      {'op': 'lh_hist', 'steps': steps, 'sizes': {k: len(v) for k, v in defs.items()}}, ('lh_hist', t, line[:200])))
+        for st in steps:
+            ctx.count('helper:step:' + st.split(':')[0])
+    for t in range(40 if thorough else 10):
+        geos = None if rng.random() < 0.2 else rnd_geos(rng.choice([0, 1, 3, 16]))
+        calibs = None if rng.random() < 0.3 else rnd_calibs(rng.choice([0, 1, 3, 16]))
+        line = 'lh_cfgw %d %s %s' % (0x2000, 'none' if geos is None else enc_g(geos), 'none' if calibs is None else enc_c(calibs))
+        cases.append(('lh_cfgw', line, (lambda g=geos, c=calibs: real_lh_cfgw(0x2000, g, c)), canon_f32_fields,
+                      {'op': 'lh_cfgw', 'geos': None if geos is None else len(geos), 'calibs': None if calibs is None else len(calibs)}, ('lh_cfgw', t, line[:200])))
+
+
 def gen_corpus(ctx, cases):
     """harness/corpus/c14/*.json: committed witnesses / past disagreements, replayed first"""
     import glob
@@ -1957,9 +2178,20 @@ def gen_corpus(ctx, cases):
                 thunk = (lambda w=w: real_i2c_parse(bytes.fromhex(w[1])))
             elif w[0] in ('i2c_hist', 'ow_hist'):
                 thunk = (lambda w=w: real_hist(w[0][:-5], w[1].split(',')))
+            elif w[0] == 'lh_hist':
+                defs = {}
+                for dd in w[2].split('|'):
+                    nm, val = dd.split('=')
+                    ents = []
+                    for e in ([] if val == '-' else val.split(',')):
+                        x = e.split('/')
+                        fl_ = [int(v) for v in x[1].split('.')]
+                        ents.append((int(x[0]), fl_, int(x[2])) if nm.startswith('G') else (int(x[0]), fl_, int(x[2]), int(x[3])))
+                    defs[nm] = ents
+                thunk = (lambda w=w, d=defs: real_lh_hist(int(w[1]), d, w[3].split(';')))
             else:
                 raise RuntimeError('corpus %s: unknown op %s' % (fn, w[0]))
-            cases.append((w[0], line, thunk, canon_i2c_parse if w[0] == 'i2c_parse' else canon_i2c_hist if w[0] == 'i2c_hist' else None,
+            cases.append((w[0], line, thunk, canon_i2c_parse if w[0] == 'i2c_parse' else canon_i2c_hist if w[0] == 'i2c_hist' else canon_f32_fields if w[0] == 'lh_hist' else None,
                           {'op': w[0], 'corpus': os.path.basename(fn)}, ('corpus', line)))
 
 
@@ -1991,7 +2223,7 @@ def gen_rereads(ctx, cases):
                           {'op': 'deck_info', 'reread': step}, ('deck-reread', g, step, mem)))
 
 
-GENERATORS = [gen_corpus, gen_i2c, gen_ow, gen_hist, gen_rereads, gen_lh, gen_deck, gen_loco, gen_yaml]
+GENERATORS = [gen_corpus, gen_i2c, gen_ow, gen_hist, gen_rereads, gen_lh, gen_helper, gen_deck, gen_loco, gen_yaml]
 
 
 def correspond(ctx):
@@ -2307,3 +2539,67 @@ def search(ctx):
                                 {'memories': trace}, got=repr(got_el), want=repr(exp[1]))
                     break
             mem, _ = mutate_ow(rng, mem)
+
+    # every USE of the helper's writer / reader: the same dict object uploaded twice, to two Crazyflies, then read back;
+    # the caller's dict must not be consumed and every upload must leave the layout of the dict in the memory
+    from cflib.crazyflie.mem.lighthouse_memory import LighthouseMemHelper, LighthouseMemory
+
+    def layout(geos, calibs, size=0x2000):
+        m = bytearray(size)
+        for bs, f, v in geos:
+            m[0x100 * bs:0x100 * bs + 49] = b''.join(struct.pack('<I', x) for x in f) + bytes([1 if v else 0])
+        for bs, f, uid, v in calibs:
+            m[0x1000 + 0x100 * bs:0x1000 + 0x100 * bs + 61] = b''.join(struct.pack('<I', x) for x in f) + struct.pack('<I', uid) + bytes([1 if v else 0])
+        return m
+
+    def q32(m):
+        """memory with the float32 fields of all pages quieted (signalling NaNs do not survive a Python float)"""
+        m = bytearray(m)
+        for base, nf in ((0, 12), (0x1000, 14)):
+            for bs in range(16):
+                for i in range(nf):
+                    o = base + 0x100 * bs + 4 * i
+                    m[o:o + 4] = struct.pack('<I', qnan32(struct.unpack('<I', bytes(m[o:o + 4]))[0]))
+        return bytes(m)
+    for t in range(max(12, n // 12)):
+        geos = [(bs, [rnd_f32(rng) for _ in range(12)], rng.randrange(2)) for bs in rng.sample(range(16), rng.choice([1, 2, 5, 16]))]
+        calibs = [(bs, [rnd_f32(rng) for _ in range(14)], rng.getrandbits(32), rng.randrange(2)) for bs in rng.sample(range(16), rng.choice([1, 2, 16]))]
+        gd = {bs: mk_geo(f, v) for bs, f, v in geos}
+        cd = {bs: mk_calib(f, uid, v) for bs, f, uid, v in calibs}
+        want_mem = q32(layout(geos, calibs))
+        want_g, want_c = show_obj_dict(gd), show_obj_dict(cd)
+        inp = {'geos': geos, 'calibs': calibs}
+        for upload in range(rng.choice([2, 3])):           # each upload goes to another Crazyflie (helper + memory)
+            h = FakeMemHandler(bytes(0x2000))
+            lh = LighthouseMemory(3, 0x14, 0x2000, h)
+            helper = LighthouseMemHelper(_FakeCf([lh]))
+            done = []
+            helper.write_geos(gd, done.append)
+            h.run()
+            helper.write_calibs(cd, done.append)
+            h.run()
+            got_g, got_c = show_obj_dict(gd), show_obj_dict(cd)
+            if canon_f32_fields(got_g) != canon_f32_fields(want_g) or canon_f32_fields(got_c) != canon_f32_fields(want_c):
+                ctx.witness('lh-helper-consumes-caller-data', 'LighthouseMemHelper.write_geos/write_calibs changed the dict the caller passed in',
+                            dict(inp, upload=upload + 1), got='geos=%s calibs=%s' % (got_g[:200], got_c[:200]), want='unchanged')
+                break
+            if done != [True, True] or q32(h.mem) != want_mem:
+                ctx.witness('lh-helper-upload', 'upload number %d of the same configuration dict does not leave its layout in the memory' % (upload + 1),
+                            dict(inp, upload=upload + 1), got='success=%r memory crc=%d' % (done, crc32(q32(h.mem))), want='success=[True, True] memory crc=%d' % crc32(want_mem))
+                break
+            res = []
+            helper.read_all_geos(res.append)
+            h.run()
+            helper.read_all_calibs(res.append)
+            h.run()
+            bad = [bs for bs in gd if canon_f32_fields(show_lh(res[0][bs])) != canon_f32_fields(show_lh(gd[bs]))] + \
+                  [bs for bs in cd if canon_f32_fields(show_lh(res[1][bs])) != canon_f32_fields(show_lh(cd[bs]))]
+            if bad:
+                ctx.witness('lh-helper-readback', 'read_all_* after the upload does not return the uploaded objects', dict(inp, upload=upload + 1, base_stations=bad))
+                break
+        got = real_lh_cfgw(0x2000, geos, calibs)
+        pad_g = geos + [(bs, [0] * 12, 0) for bs in range(16) if bs not in {g[0] for g in geos}]
+        pad_c = calibs + [(bs, [0] * 14, 0, 0) for bs in range(16) if bs not in {c[0] for c in calibs}]
+        want = 'ok S=1|g=%s|c=%s|m=%s|p=16.16' % (want_g, want_c, mem_sig(layout(pad_g, pad_c)))
+        if canon_f32_fields(got) != canon_f32_fields(want):
+            ctx.witness('lh-config-writer', 'LighthouseConfigWriter changed the caller dicts or did not complete', inp, got=got[:300], want=want[:300])
